@@ -168,6 +168,12 @@ class Grid(object):
                     pvalue = " ".join(line[1:]).strip().lower()
                 elif pname.startswith("n") and not pname.startswith("nodata"):
                     pvalue = int(line[1].strip())
+                elif pname.startswith("nodata"):
+                    # Keep integer no data values exact
+                    try:
+                        pvalue = int(line[1].strip())
+                    except ValueError:
+                        pvalue = float(line[1].strip())
                 elif pname.startswith("parentgrid_n"):
                     pvalue = int(line[1].strip())
                 else:
@@ -567,6 +573,9 @@ class Grid(object):
             else:
                 byteorder = "I"
             fh.write("{0:<14} {1}\n".format("BYTEORDER", byteorder))
+
+            # No data value
+            fh.write("{0:<14} {1}\n".format("NODATA", self.nodata))
 
             # Name
             fh.write("{0:<14} {1}\n".format("NAME", self.name))
